@@ -271,6 +271,7 @@ structure Sib (c0 : Cl) (e : Ev) : Prop where
   kind : ∃ b sw, e.kind = .commit b sw ∧ (isAdmin c0.g e.sender || isPureSelfUpdate b sw) = true
   foreign : (e.sender == c0.id) = false
   ts : e.ts ≠ 0
+  cipher : e.cipher ∉ c0.g.consumed
 
 /-- a commit created in the parent state (foreign sibling or the client's own) -/
 structure Com (c0 : Cl) (e : Ev) : Prop where
@@ -285,13 +286,13 @@ theorem Sib.com {c0 : Cl} {e : Ev} (h : Sib c0 e) : Com c0 e :=
 def childG (c0 : Cl) (a : Ev) : GState := syncRec (ensureSecret (mergeCommit c0.maxPast (gP c0) a))
 
 theorem mergeCommit_path (mp : Nat) (g : GState) (e : Ev) (b : Body) (sw : List Nat) (hk : e.kind = .commit b sw) :
-    (mergeCommit mp g e).path = g.path ++ [e.n] ∧ (mergeCommit mp g e).secrets = g.secrets := by
+    (mergeCommit mp g e).path = g.path ++ [e.cipher] ∧ (mergeCommit mp g e).secrets = g.secrets := by
   unfold mergeCommit; rw [hk]
   cases b <;> simp [applyBody]
 
 theorem childG_facts (c0 : Cl) (hb : Base c0) (a : Ev) (hs : Com c0 a) :
-    (childG c0 a).path = c0.g.path ++ [a.n] ∧
-    alookup (epochOf c0.g.path + 1) (childG c0 a).secrets = some (c0.g.path ++ [a.n]) ∧
+    (childG c0 a).path = c0.g.path ++ [a.cipher] ∧
+    alookup (epochOf c0.g.path + 1) (childG c0 a).secrets = some (c0.g.path ++ [a.cipher]) ∧
     alookup (epochOf c0.g.path) (childG c0 a).secrets = some c0.g.path ∧
     (childG c0 a).recEpoch = epochOf c0.g.path + 1 := by
   obtain ⟨b, sw, hk⟩ := hs.kind
@@ -324,14 +325,48 @@ theorem outerOpens_child (c0 : Cl) (hb : Base c0) (a e : Ev) (hs : Com c0 a) (hp
   have h3' : alookup (baseEpoch + c0.g.path.length) (childG c0 a).secrets = some c0.g.path := h3
   simp [hp, epochOf, h3']
 
+/-! ## the consumed-ciphertext list rides along
+
+  Since the model follows OpenMLS in consuming a foreign commit's ratchet generation BEFORE the
+  snapshot, the parent state saved in a snapshot differs from the original one in `consumed`.  None of
+  the functions below looks at that field. -/
+
+/-- the state with its consumed list replaced -/
+def wc (g : GState) (X : List Nat) : GState := { g with consumed := X }
+
+theorem wc_self (g : GState) : wc g g.consumed = g := by cases g; rfl
+@[simp] theorem wc_wc (g : GState) (X Y : List Nat) : wc (wc g X) Y = wc g Y := rfl
+@[simp] theorem wc_consumed (g : GState) (X : List Nat) : (wc g X).consumed = X := rfl
+
+theorem ensureSecret_wc (g : GState) (X : List Nat) : ensureSecret (wc g X) = wc (ensureSecret g) X := by
+  unfold ensureSecret wc
+  simp only
+  split <;> rfl
+
+theorem syncRec_wc (g : GState) (X : List Nat) : syncRec (wc g X) = wc (syncRec g) X := rfl
+
+theorem mergeCommit_wc (mp : Nat) (g : GState) (X : List Nat) (e : Ev) : mergeCommit mp (wc g X) e = wc (mergeCommit mp g e) X := by
+  unfold mergeCommit wc
+  split
+  · rename_i b sw _
+    cases b <;> rfl
+  · rfl
+
+theorem outerOpens_wc (g : GState) (X : List Nat) (e : Ev) : outerOpens (wc g X) e = outerOpens g e := rfl
+
+/-- consume a ciphertext (what decrypting a foreign commit does to the ratchet) -/
+def consume (c : Cl) (x : Nat) : Cl := { c with g := { c.g with consumed := x :: c.g.consumed } }
+
 /-! ## `process_message` on a commit: which handler runs -/
 
 theorem step1_commit_same (retry : Cl → Option (Cl × Res)) (nx : Nat) (c : Cl) (e : Ev) (b : Body) (sw : List Nat)
     (hg : c.hasGroup = true) (ho : outerOpens (withSecret c).g e = true) (hk : e.kind = .commit b sw)
-    (hep : epochOf e.path = epochOf c.g.path) (hf : (e.sender == c.id) = false) :
-    step1 retry nx c e = processCommit (withSecret c) e b sw := by
+    (hep : epochOf e.path = epochOf c.g.path) (hf : (e.sender == c.id) = false)
+    (hc : e.cipher ∉ c.g.consumed) :
+    step1 retry nx c e = processCommit (consume (withSecret c) e.cipher) e b sw := by
   unfold step1
-  simp [hg, ho, hk, hep, hf]
+  simp only [consume]
+  simp [hg, ho, hk, hep, hf, hc]
 
 theorem step1_commit_wrong (retry : Cl → Option (Cl × Res)) (nx : Nat) (c : Cl) (e : Ev) (b : Body) (sw : List Nat)
     (hg : c.hasGroup = true) (ho : outerOpens (withSecret c).g e = true) (hk : e.kind = .commit b sw)
@@ -362,25 +397,29 @@ theorem deliverOnce_rec2 (retry : Cl → Option (Cl × Res)) (nx : Nat) (c : Cl)
 
 /-! ## the two shapes of the client at the fork -/
 
-def snapOf (c0 : Cl) (a : Ev) : Snap := { epoch := epochOf c0.g.path, commit := a.idnum, ts := a.ts, saved := gP c0 }
+/-- the snapshot of the parent state taken when sibling `a` was applied, with consumed list `X` -/
+def snapOf (c0 : Cl) (a : Ev) (X : List Nat) : Snap :=
+  { epoch := epochOf c0.g.path, commit := a.idnum, ts := a.ts, saved := wc (gP c0) X }
 
-/-- at the parent state (possibly after rollbacks): the snapshot manager holds a suffix of the original queue -/
+/-- at the parent state (possibly after rollbacks): the parent state up to the consumed list; the snapshot
+    manager holds a suffix of the original queue -/
 structure PForm (c0 c : Cl) : Prop where
   id : c.id = c0.id
   ret : c.retention = c0.retention
   mp : c.maxPast = c0.maxPast
   hg : c.hasGroup = true
-  g : ensureSecret c.g = gP c0
+  g : ensureSecret c.g = wc (gP c0) c.g.consumed
   mgr : ∃ k, c.mgr = c0.mgr.drop k
 
-/-- sibling `a` applied: its state, and the snapshot of the parent state last in the queue -/
+/-- sibling `a` applied: its state (up to the consumed list), and the snapshot of the parent state — with
+    the same consumed list — last in the queue -/
 structure CForm (c0 : Cl) (a : Ev) (c : Cl) : Prop where
   id : c.id = c0.id
   ret : c.retention = c0.retention
   mp : c.maxPast = c0.maxPast
   hg : c.hasGroup = true
-  g : c.g = childG c0 a
-  mgr : ∃ k, c.mgr = c0.mgr.drop k ++ [snapOf c0 a]
+  g : c.g = wc (childG c0 a) c.g.consumed
+  mgr : ∃ k, c.mgr = c0.mgr.drop k ++ [snapOf c0 a c.g.consumed]
 
 def rec2 (c0 : Cl) : Rec := { state := 2, epoch := some (epochOf c0.g.path + 1), hasGroup := true, mid := none }
 def rec3 (c0 : Cl) : Rec := { state := 3, epoch := some (epochOf c0.g.path + 1), hasGroup := true, mid := none }
@@ -391,41 +430,64 @@ theorem drop_snoc {α : Type} (X : List α) (s : α) (j : Nat) (h : j ≤ X.leng
 theorem withSecret_eq (c : Cl) (h : ensureSecret c.g = c.g) : withSecret c = c := by
   cases c; simp only [withSecret] at *; simp [h]
 
-/-- situation 1: at the parent state a sibling without a record is applied -/
+theorem childOf_wc (c0 : Cl) (a : Ev) (X : List Nat) :
+    syncRec (ensureSecret (mergeCommit c0.maxPast (wc (gP c0) X) a)) = wc (childG c0 a) X := by
+  rw [mergeCommit_wc, ensureSecret_wc, syncRec_wc]; rfl
+
+/-- the queue after `mgrCreate` at the parent shape -/
+theorem mgrCreate_parent (c0 : Cl) (hb : Base c0) (k ret : Nat) (s : Snap) (hr : ret = c0.retention) :
+    ∃ k', (c0.mgr.drop k ++ [s]).drop ((c0.mgr.drop k ++ [s]).length - ret) = c0.mgr.drop k' ++ [s] := by
+  have hlen : (c0.mgr.drop k ++ [s]).length - ret ≤ (c0.mgr.drop k).length := by
+    have := hb.ret
+    simp only [List.length_append, List.length_singleton]
+    omega
+  exact ⟨k + ((c0.mgr.drop k ++ [s]).length - ret), by rw [drop_snoc _ _ _ hlen, List.drop_drop]⟩
+
+/-- situation 1: at the parent state a sibling without a record, whose ciphertext is not consumed, is applied -/
 theorem apply_parent (c0 : Cl) (hb : Base c0) (retry : Cl → Option (Cl × Res)) (nx : Nat) (c : Cl) (e : Ev)
-    (hf : PForm c0 c) (hs : Sib c0 e) (hr : getRec c e.n = none) :
-    CForm c0 e (deliverOnce retry nx c e).1 ∧ (deliverOnce retry nx c e).1.recs = ainsert e.n (rec2 c0) c.recs := by
+    (hf : PForm c0 c) (hs : Sib c0 e) (hr : getRec c e.n = none) (hc : e.cipher ∉ c.g.consumed) :
+    CForm c0 e (deliverOnce retry nx c e).1 ∧ (deliverOnce retry nx c e).1.recs = ainsert e.n (rec2 c0) c.recs ∧
+    (deliverOnce retry nx c e).1.g.consumed = e.cipher :: c.g.consumed := by
   obtain ⟨b, sw, hk, hadm⟩ := hs.kind
-  have hwg : (withSecret c).g = gP c0 := hf.g
+  have hwg : (withSecret c).g = wc (gP c0) c.g.consumed := hf.g
   have hpath : c.g.path = c0.g.path := by
     have := congrArg GState.path hf.g
-    rw [ensureSecret_path, gP_path] at this; exact this
+    rw [ensureSecret_path] at this; rw [this]; exact gP_path c0
+  have hcg : (consume (withSecret c) e.cipher).g = wc (gP c0) (e.cipher :: c.g.consumed) := by
+    show ({ (withSecret c).g with consumed := e.cipher :: (withSecret c).g.consumed } : GState) = _
+    rw [hwg]; rfl
   rw [deliverOnce_norec _ _ _ _ hr,
-    step1_commit_same retry nx c e b sw hf.hg (by rw [hwg]; exact outerOpens_parent c0 hb e hs.path) hk
-      (by rw [hs.path, hpath]) (by rw [hf.id]; exact hs.foreign),
+    step1_commit_same retry nx c e b sw hf.hg (by rw [hwg, outerOpens_wc]; exact outerOpens_parent c0 hb e hs.path) hk
+      (by rw [hs.path, hpath]) (by rw [hf.id]; exact hs.foreign) hc,
     processCommit_ok _ _ _ _ (by
-      rw [hwg]
-      have : isAdmin (gP c0) e.sender = isAdmin c0.g e.sender := by simp [isAdmin, gP]
+      rw [hcg]
+      have : isAdmin (wc (gP c0) (e.cipher :: c.g.consumed)) e.sender = isAdmin c0.g e.sender := by simp [isAdmin, gP, wc]
       rw [this]; exact hadm)]
   obtain ⟨k, hk'⟩ := hf.mgr
-  have hchild : syncRec (ensureSecret (mergeCommit (withSecret c).maxPast (withSecret c).g e)) = childG c0 e := by
-    rw [hwg]; show syncRec (ensureSecret (mergeCommit c.maxPast (gP c0) e)) = _; rw [hf.mp]; rfl
-  refine ⟨⟨hf.id, hf.ret, hf.mp, hf.hg, ?_, ?_⟩, ?_⟩
-  · exact hchild
-  · simp only [setRec, mgrCreate, withSecret_mgr, hk', hwg, gP_path]
-    have hlen : (c0.mgr.drop k ++ [({ epoch := epochOf c0.g.path, commit := e.idnum, ts := e.ts, saved := gP c0 } : Snap)]).length - (withSecret c).retention ≤ (c0.mgr.drop k).length := by
-      have : (withSecret c).retention = c0.retention := hf.ret
-      have := hb.ret
-      simp only [List.length_append, List.length_singleton]
-      omega
-    refine ⟨k + ((c0.mgr.drop k ++ [({ epoch := epochOf c0.g.path, commit := e.idnum, ts := e.ts, saved := gP c0 } : Snap)]).length - (withSecret c).retention), ?_⟩
-    rw [drop_snoc _ _ _ hlen, List.drop_drop]
-    rfl
-  · have hep : epochOf (syncRec (ensureSecret (mergeCommit (withSecret c).maxPast (withSecret c).g e))).path = epochOf c0.g.path + 1 := by
-      rw [hchild, (childG_facts c0 hb e hs.com).1, epochOf_snoc]
+  have hchild : syncRec (ensureSecret (mergeCommit (consume (withSecret c) e.cipher).maxPast (consume (withSecret c) e.cipher).g e))
+      = wc (childG c0 e) (e.cipher :: c.g.consumed) := by
+    rw [hcg]
+    show syncRec (ensureSecret (mergeCommit c.maxPast _ e)) = _
+    rw [hf.mp]; exact childOf_wc c0 e _
+  have hcons : (syncRec (ensureSecret (mergeCommit (consume (withSecret c) e.cipher).maxPast (consume (withSecret c) e.cipher).g e))).consumed
+      = e.cipher :: c.g.consumed := by rw [hchild]; rfl
+  refine ⟨⟨hf.id, hf.ret, hf.mp, hf.hg, ?_, ?_⟩, ?_, ?_⟩
+  · show syncRec _ = wc (childG c0 e) (syncRec _).consumed
+    rw [hcons]; exact hchild
+  · show ∃ k, (mgrCreate (consume (withSecret c) e.cipher) _ e).mgr = _ ++ [snapOf c0 e (syncRec _).consumed]
+    rw [hcons]
+    simp only [mgrCreate, hcg]
+    have hm : (consume (withSecret c) e.cipher).mgr = c0.mgr.drop k := hk'
+    have hp' : (wc (gP c0) (e.cipher :: c.g.consumed)).path = c0.g.path := gP_path c0
+    rw [hm, hp']
+    exact mgrCreate_parent c0 hb k _ _ hf.ret
+  · have hep : epochOf (syncRec (ensureSecret (mergeCommit (consume (withSecret c) e.cipher).maxPast (consume (withSecret c) e.cipher).g e))).path = epochOf c0.g.path + 1 := by
+      rw [hchild]
+      show epochOf (childG c0 e).path = _
+      rw [(childG_facts c0 hb e hs.com).1, epochOf_snoc]
     simp only [setRec, hep, rec2]
     rfl
-
+  · exact hcons
 
 def key (e : Ev) : Key := (e.ts, e.idnum)
 
@@ -487,22 +549,24 @@ theorem alookup_map_key {α : Type} (f : Nat × α → Nat × α) (F : α → α
 
 /-- situation 2a: at child `a`, rolling back to the fork epoch restores the parent shape; records are rewritten -/
 theorem rollback_child (c0 : Cl) (hb : Base c0) (a : Ev) (c : Cl) (hf : CForm c0 a c) :
-    ∃ c1, rollbackTo c (epochOf c0.g.path) = some c1 ∧ PForm c0 c1 ∧
+    ∃ c1, rollbackTo c (epochOf c0.g.path) = some c1 ∧ PForm c0 c1 ∧ c1.g.consumed = c.g.consumed ∧
       ∀ n, getRec c1 n = (getRec c n).map (rbRec (epochOf c0.g.path)) := by
   obtain ⟨k, hk⟩ := hf.mgr
-  have hidx := findIdx_snoc (c0.mgr.drop k) (snapOf c0 a) (epochOf c0.g.path) (drop_no_epoch c0 hb k) rfl
+  have hidx := findIdx_snoc (c0.mgr.drop k) (snapOf c0 a c.g.consumed) (epochOf c0.g.path) (drop_no_epoch c0 hb k) rfl
   unfold rollbackTo
   rw [hk, hidx]
   simp only [List.drop_left, List.take_left]
-  refine ⟨_, rfl, ⟨hf.id, hf.ret, hf.mp, hf.hg, ?_, ⟨k, rfl⟩⟩, ?_⟩
-  · show ensureSecret (snapOf c0 a).saved = gP c0
-    simp only [snapOf]; exact ensureSecret_idem _
+  refine ⟨_, rfl, ⟨hf.id, hf.ret, hf.mp, hf.hg, ?_, ⟨k, rfl⟩⟩, rfl, ?_⟩
+  · show ensureSecret (snapOf c0 a c.g.consumed).saved = wc (gP c0) (snapOf c0 a c.g.consumed).saved.consumed
+    simp only [snapOf, wc_consumed]
+    rw [ensureSecret_wc]
+    show wc (ensureSecret (ensureSecret c0.g)) _ = _
+    rw [ensureSecret_idem]; rfl
   · intro n
     simp only [getRec]
     rw [alookup_map_key _ rbRec2 (by intro p; obtain ⟨k', r⟩ := p; exact ite_pair _ _ _ _),
       alookup_map_key _ (rbRec1 (epochOf c0.g.path)) (by intro p; obtain ⟨k', r⟩ := p; exact ite_pair _ _ _ _)]
     cases alookup n c.recs <;> rfl
-
 
 theorem deliverN_once (f nx : Nat) (c : Cl) (e : Ev) : ∃ retry, deliverN f nx c e = deliverOnce retry nx c e := by
   cases f with
@@ -515,21 +579,22 @@ theorem child_wrong (c0 : Cl) (hb : Base c0) (retry : Cl → Option (Cl × Res))
     step1 retry nx c e = wrongEpochCommit retry c e (epochOf c0.g.path) := by
   obtain ⟨b, sw, hk⟩ := hs.kind
   have hst := (childG_stable c0 hb a ha).1
-  have hw : withSecret c = c := withSecret_eq c (by rw [hf.g]; exact hst)
-  have hpath : c.g.path = c0.g.path ++ [a.n] := by rw [hf.g]; exact (childG_facts c0 hb a ha).1
-  rw [step1_commit_wrong retry nx c e b sw hf.hg (by rw [hw, hf.g]; exact outerOpens_child c0 hb a e ha hs.path) hk
+  have hw : withSecret c = c := withSecret_eq c (by rw [hf.g, ensureSecret_wc, hst])
+  have hpath : c.g.path = c0.g.path ++ [a.cipher] := by rw [hf.g]; exact (childG_facts c0 hb a ha).1
+  rw [step1_commit_wrong retry nx c e b sw hf.hg (by rw [hw, hf.g, outerOpens_wc]; exact outerOpens_child c0 hb a e ha hs.path) hk
     (by rw [hs.path, hpath, epochOf_snoc]; omega), hw, hs.path]
 
 /-- situation 2b: at child `a`, a worse sibling gets a Failed record; nothing else changes -/
 theorem child_worse (c0 : Cl) (hb : Base c0) (retry : Cl → Option (Cl × Res)) (nx : Nat) (a e : Ev) (c : Cl)
     (hf : CForm c0 a c) (ha : Com c0 a) (hs : Sib c0 e) (hr : getRec c e.n = none)
     (hw : klt (key e) (key a) = false) :
-    CForm c0 a (deliverOnce retry nx c e).1 ∧ (deliverOnce retry nx c e).1.recs = ainsert e.n (rec3 c0) c.recs := by
+    CForm c0 a (deliverOnce retry nx c e).1 ∧ (deliverOnce retry nx c e).1.recs = ainsert e.n (rec3 c0) c.recs ∧
+    (deliverOnce retry nx c e).1.g = c.g := by
   have hb' : isBetter c (epochOf c0.g.path) e = false := by rw [isBetter_child c0 hb a e c hf ha.ts]; exact hw
   have hre : c.g.recEpoch = epochOf c0.g.path + 1 := by rw [hf.g]; exact (childG_facts c0 hb a ha).2.2.2
   rw [deliverOnce_norec _ _ _ _ hr, child_wrong c0 hb retry nx a e c hf ha hs.com]
   simp only [wrongEpochCommit, hb', Bool.false_eq_true, if_false, notBetterResult, hr, failUnprocessable, recordFailure, hre]
-  refine ⟨⟨hf.id, hf.ret, hf.mp, hf.hg, hf.g, hf.mgr⟩, ?_⟩
+  refine ⟨⟨hf.id, hf.ret, hf.mp, hf.hg, hf.g, hf.mgr⟩, ?_, rfl⟩
   simp [setRec, rec3]
 
 /-- situation 2c: at child `a`, `a` itself again (its record says ProcessedCommit): nothing changes -/
@@ -539,36 +604,36 @@ theorem child_same (c0 : Cl) (hb : Base c0) (retry : Cl → Option (Cl × Res)) 
   have hb' : isBetter c (epochOf c0.g.path) a = false := by rw [isBetter_child c0 hb a a c hf ha.ts]; exact klt_irrefl _
   rw [deliverOnce_rec2 _ _ _ _ _ hr rfl, child_wrong c0 hb retry nx a a c hf ha ha]
   simp only [wrongEpochCommit, hb', Bool.false_eq_true, if_false, notBetterResult, hr, rec2, returnOwnCommit]
-  have hsy : syncRec c.g = c.g := by rw [hf.g]; exact (childG_stable c0 hb a ha).2
+  have hsy : syncRec c.g = c.g := by rw [hf.g, syncRec_wc, (childG_stable c0 hb a ha).2]
   cases c
   simp only at hsy ⊢
   simp [hsy]
 
 /-- situation 2a: at child `a`, a better sibling: rollback (a's record → EpochInvalidated), then it is applied -/
 theorem child_better (c0 : Cl) (hb : Base c0) (f nx : Nat) (a e : Ev) (c : Cl)
-    (hf : CForm c0 a c) (ha : Com c0 a) (hs : Sib c0 e) (hr : getRec c e.n = none)
+    (hf : CForm c0 a c) (ha : Com c0 a) (hs : Sib c0 e) (hr : getRec c e.n = none) (hc : e.cipher ∉ c.g.consumed)
     (hw : klt (key e) (key a) = true) :
     CForm c0 e (deliverN (f + 1) nx c e).1 ∧
-    ∀ n, getRec (deliverN (f + 1) nx c e).1 n =
-      if n = e.n then some (rec2 c0) else (getRec c n).map (rbRec (epochOf c0.g.path)) := by
+    (∀ n, getRec (deliverN (f + 1) nx c e).1 n =
+      if n = e.n then some (rec2 c0) else (getRec c n).map (rbRec (epochOf c0.g.path))) ∧
+    (deliverN (f + 1) nx c e).1.g.consumed = e.cipher :: c.g.consumed := by
   have hb' : isBetter c (epochOf c0.g.path) e = true := by rw [isBetter_child c0 hb a e c hf ha.ts]; exact hw
-  obtain ⟨c1, hrb, hp1, hrec1⟩ := rollback_child c0 hb a c hf
+  obtain ⟨c1, hrb, hp1, hcons1, hrec1⟩ := rollback_child c0 hb a c hf
   have hr1 : getRec c1 e.n = none := by rw [hrec1, hr]; rfl
   obtain ⟨retry', hret⟩ := deliverN_once f nx c1 e
-  have happ := apply_parent c0 hb retry' nx c1 e hp1 hs hr1
+  have happ := apply_parent c0 hb retry' nx c1 e hp1 hs hr1 (by rw [hcons1]; exact hc)
   have heq : deliverN (f + 1) nx c e = deliverOnce retry' nx c1 e := by
     show deliverOnce (fun c1 => some (deliverN f nx c1 e)) nx c e = _
     rw [deliverOnce_norec _ _ _ _ hr, child_wrong c0 hb _ nx a e c hf ha hs.com]
     simp only [wrongEpochCommit, hb', if_true, hrb, hret]
   rw [heq]
-  refine ⟨happ.1, ?_⟩
+  refine ⟨happ.1, ?_, by rw [happ.2.2, hcons1]⟩
   intro n
   simp only [getRec] at hrec1 ⊢
-  rw [happ.2]
+  rw [happ.2.1]
   by_cases hn : n = e.n
   · subst hn; simp [alookup_ainsert_self]
   · rw [alookup_ainsert_ne _ _ _ _ hn, hrec1]; simp [hn]
-
 
 /-! ## the simulation -/
 
@@ -576,7 +641,45 @@ theorem child_better (c0 : Cl) (hb : Base c0) (f nx : Nat) (a e : Ev) (c : Cl)
 structure Sibs (c0 : Cl) (S : List Ev) : Prop where
   sib : ∀ e ∈ S, Sib c0 e
   inj : ∀ e1 ∈ S, ∀ e2 ∈ S, (e1.n = e2.n ∨ key e1 = key e2) → e1 = e2
+  cinj : ∀ e1 ∈ S, ∀ e2 ∈ S, e1.cipher = e2.cipher → e1 = e2
   norec : ∀ e ∈ S, getRec c0 e.n = none
+
+/-- every consumed ciphertext was consumed before the fork or belongs to a sibling that has a record -/
+def ConsOK (c0 : Cl) (S : List Ev) (c : Cl) : Prop :=
+  ∀ x ∈ c.g.consumed, x ∈ c0.g.consumed ∨ ∃ e' ∈ S, e'.cipher = x ∧ getRec c e'.n ≠ none
+
+theorem consOK_fresh (c0 : Cl) (S : List Ev) (c : Cl) (hsib : ∀ e ∈ S, Sib c0 e)
+    (hcinj : ∀ e1 ∈ S, ∀ e2 ∈ S, e1.cipher = e2.cipher → e1 = e2) (h : ConsOK c0 S c)
+    (e : Ev) (he : e ∈ S) (hr : getRec c e.n = none) : e.cipher ∉ c.g.consumed := by
+  intro hm
+  rcases h _ hm with x | ⟨e', he', hc, hn⟩
+  · exact (hsib e he).cipher x
+  · have := hcinj e' he' e he hc
+    subst this
+    exact hn hr
+
+theorem consOK_step (c0 : Cl) (S : List Ev) (c c' : Cl) (h : ConsOK c0 S c)
+    (hrec : ∀ e' ∈ S, getRec c e'.n ≠ none → getRec c' e'.n ≠ none)
+    (hcons : c'.g.consumed = c.g.consumed ∨ ∃ e ∈ S, c'.g.consumed = e.cipher :: c.g.consumed ∧ getRec c' e.n ≠ none) :
+    ConsOK c0 S c' := by
+  intro x hx
+  have old : x ∈ c.g.consumed → x ∈ c0.g.consumed ∨ ∃ e' ∈ S, e'.cipher = x ∧ getRec c' e'.n ≠ none := by
+    intro hm
+    rcases h x hm with y | ⟨e', he', hc, hn⟩
+    · exact Or.inl y
+    · exact Or.inr ⟨e', he', hc, hrec e' he' hn⟩
+  rcases hcons with y | ⟨e, he, y, hn⟩
+  · rw [y] at hx; exact old hx
+  · rw [y] at hx
+    rcases List.mem_cons.mp hx with z | z
+    · exact Or.inr ⟨e, he, z.symm, hn⟩
+    · exact old z
+
+theorem alookup_ainsert_ne_none {α : Type} (n k : Nat) (v : α) (l : List (Nat × α)) (h : alookup n l ≠ none) :
+    alookup n (ainsert k v l) ≠ none := by
+  by_cases c : n = k
+  · subst c; rw [alookup_ainsert_self]; simp
+  · rw [alookup_ainsert_ne _ _ _ _ c]; exact h
 
 /-- a record that makes the dedup step refuse the event, and stays so across rollbacks to the fork epoch -/
 def BlockedRec (c0 : Cl) (r : Rec) : Prop :=
@@ -590,13 +693,20 @@ theorem rbRec_blocked (c0 : Cl) (r : Rec) (h : r.hasGroup = true ∧ r.epoch = s
   simp [BlockedRec, h1, h2]
 
 structure Rel (c0 : Cl) (S : List Ev) (c : Cl) (st : FState) : Prop where
+  cons : ConsOK c0 S c
   par : st.applied = none → PForm c0 c
   chi : ∀ k, st.applied = some k → ∃ a ∈ S, key a = k ∧ CForm c0 a c ∧ getRec c a.n = some (rec2 c0)
   blk : ∀ e ∈ S, key e ∈ st.blocked → ∃ r, getRec c e.n = some r ∧ BlockedRec c0 r
   fresh : ∀ e ∈ S, key e ∉ st.blocked → st.applied ≠ some (key e) → getRec c e.n = none
 
+theorem pform_init (c0 : Cl) (hb : Base c0) : PForm c0 c0 := by
+  refine ⟨rfl, rfl, rfl, hb.hasGroup, ?_, ⟨0, by simp⟩⟩
+  have : (ensureSecret c0.g).consumed = c0.g.consumed := (ensureSecret_fields c0.g).2.2.2.2.2.2.2.2.2.2.1
+  rw [← this]; exact (wc_self _).symm
+
 theorem rel_init (c0 : Cl) (hb : Base c0) (S : List Ev) (hS : Sibs c0 S) : Rel c0 S c0 ⟨none, []⟩ where
-  par := fun _ => ⟨rfl, rfl, rfl, hb.hasGroup, rfl, ⟨0, by simp⟩⟩
+  cons := fun x hx => Or.inl hx
+  par := fun _ => pform_init c0 hb
   chi := fun k h => by cases h
   blk := fun e _ h => by cases h
   fresh := fun e he _ _ => hS.norec e he
@@ -616,13 +726,17 @@ theorem rel_step (c0 : Cl) (hb : Base c0) (S : List Ev) (hS : Sibs c0 S) (c : Cl
       -- at the parent state: applied
       have hr := h.fresh e he hbl (by rw [hap]; simp)
       obtain ⟨retry, hd⟩ := deliverN_once 3 nx c e
-      obtain ⟨hcf, hrecs⟩ := apply_parent c0 hb retry nx c e (h.par hap) hse hr
+      obtain ⟨hcf, hrecs, hcons⟩ := apply_parent c0 hb retry nx c e (h.par hap) hse hr
+        (consOK_fresh c0 S c hS.sib hS.cinj h.cons e he hr)
       rw [fdeliver_none hbl hap, deliver, hd]
       have hother : ∀ e' ∈ S, key e' ≠ key e → getRec (deliverOnce retry nx c e).1 e'.n = getRec c e'.n := by
         intro e' he' hk
         have hn : e'.n ≠ e.n := fun x => hk (congrArg key (hS.inj e' he' e he (Or.inl x)))
         simp only [getRec, hrecs]; exact alookup_ainsert_ne _ _ _ _ hn
-      refine ⟨(fun x => by cases x), ?_, ?_, ?_⟩
+      have hcn : ConsOK c0 S (deliverOnce retry nx c e).1 :=
+        consOK_step c0 S c _ h.cons (fun e' _ hn => by simp only [getRec, hrecs]; exact alookup_ainsert_ne_none _ _ _ _ hn)
+          (Or.inr ⟨e, he, hcons, by simp only [getRec, hrecs, alookup_ainsert_self]; simp⟩)
+      refine ⟨hcn, (fun x => by cases x), ?_, ?_, ?_⟩
       · intro k hk
         cases hk
         exact ⟨e, he, rfl, hcf, by simp only [getRec, hrecs]; exact alookup_ainsert_self _ _ _⟩
@@ -647,12 +761,23 @@ theorem rel_step (c0 : Cl) (hb : Base c0) (S : List Ev) (hS : Sibs c0 S) (c : Cl
         have hne : a ≠ e := fun x => hsame (by rw [← hka, x])
         by_cases hlt : klt (key e) ka = true
         · -- better: rollback and apply
-          obtain ⟨hcf', hrec'⟩ := child_better c0 hb 2 nx a e c hcf hsa.com hse hr (by rw [hka]; exact hlt)
+          obtain ⟨hcf', hrec', hcons⟩ := child_better c0 hb 2 nx a e c hcf hsa.com hse hr
+            (consOK_fresh c0 S c hS.sib hS.cinj h.cons e he hr) (by rw [hka]; exact hlt)
           rw [fdeliver_better hbl hap hsame hlt]
           show Rel c0 S (deliverN 3 nx c e).1 _
           have hnn : ∀ e' ∈ S, key e' ≠ key e → e'.n ≠ e.n :=
             fun e' he' hk x => hk (congrArg key (hS.inj e' he' e he (Or.inl x)))
-          refine ⟨(fun x => by cases x), ?_, ?_, ?_⟩
+          have hcn : ConsOK c0 S (deliverN 3 nx c e).1 :=
+            consOK_step c0 S c _ h.cons
+              (fun e' _ hn => by
+                rw [hrec']
+                by_cases z : e'.n = e.n
+                · simp [z]
+                · simp only [z, if_false]; cases hg : getRec c e'.n with
+                  | none => exact absurd hg hn
+                  | some r => simp)
+              (Or.inr ⟨e, he, hcons, by rw [hrec']; simp⟩)
+          refine ⟨hcn, (fun x => by cases x), ?_, ?_, ?_⟩
           · intro k hk
             cases hk
             exact ⟨e, he, rfl, hcf', by rw [hrec']; simp⟩
@@ -680,13 +805,16 @@ theorem rel_step (c0 : Cl) (hb : Base c0) (S : List Ev) (hS : Sibs c0 S) (c : Cl
         · -- worse: Failed record
           have hlt' : klt (key e) (key a) = false := by rw [hka]; simpa using hlt
           obtain ⟨retry, hd⟩ := deliverN_once 3 nx c e
-          obtain ⟨hcf', hrecs⟩ := child_worse c0 hb retry nx a e c hcf hsa.com hse hr hlt'
+          obtain ⟨hcf', hrecs, hgeq⟩ := child_worse c0 hb retry nx a e c hcf hsa.com hse hr hlt'
           rw [fdeliver_worse hbl hap hsame hlt, deliver, hd]
           have hother : ∀ e' ∈ S, key e' ≠ key e → getRec (deliverOnce retry nx c e).1 e'.n = getRec c e'.n := by
             intro e' he' hk
             have hn : e'.n ≠ e.n := fun x => hk (congrArg key (hS.inj e' he' e he (Or.inl x)))
             simp only [getRec, hrecs]; exact alookup_ainsert_ne _ _ _ _ hn
-          refine ⟨(fun x => by rw [hap] at x; cases x), ?_, ?_, ?_⟩
+          have hcn : ConsOK c0 S (deliverOnce retry nx c e).1 :=
+            consOK_step c0 S c _ h.cons (fun e' _ hn => by simp only [getRec, hrecs]; exact alookup_ainsert_ne_none _ _ _ _ hn)
+              (Or.inl (by rw [hgeq]))
+          refine ⟨hcn, (fun x => by rw [hap] at x; cases x), ?_, ?_, ?_⟩
           · intro k hk
             rw [hap] at hk; cases hk
             exact ⟨a, haS, hka, hcf', by rw [hother a haS (by rw [hka]; exact hsame)]; exact hra⟩
@@ -921,38 +1049,44 @@ theorem step1_commit_own (retry : Cl → Option (Cl × Res)) (nx : Nat) (c : Cl)
   unfold step1
   simp [hg, ho, hk, hep, hf, hp, mgrCreate, hmp]
 
-/-- at the parent state the own commit's echo merges the pending commit (after taking the snapshot) -/
+/-- at the parent state the own commit's echo merges the pending commit (after taking the snapshot);
+    no ciphertext is consumed (openmls merges its own pending commit without decrypting) -/
 theorem apply_parent_own (c0 : Cl) (hb : Base c0) (retry : Cl → Option (Cl × Res)) (nx : Nat) (c : Cl) (o : Ev)
     (hf : PForm c0 c) (hs : OwnSib c0 o) (r : Rec) (hr : getRec c o.n = some r) (hst : r.state = 2) :
-    CForm c0 o (deliverOnce retry nx c o).1 ∧ (deliverOnce retry nx c o).1.recs = ainsert o.n (rec2 c0) c.recs := by
+    CForm c0 o (deliverOnce retry nx c o).1 ∧ (deliverOnce retry nx c o).1.recs = ainsert o.n (rec2 c0) c.recs ∧
+    (deliverOnce retry nx c o).1.g.consumed = c.g.consumed := by
   obtain ⟨b, sw, hk⟩ := hs.kind
-  have hwg : (withSecret c).g = gP c0 := hf.g
+  have hwg : (withSecret c).g = wc (gP c0) c.g.consumed := hf.g
   have hpath : c.g.path = c0.g.path := by
     have := congrArg GState.path hf.g
-    rw [ensureSecret_path, gP_path] at this; exact this
+    rw [ensureSecret_path] at this; rw [this]; exact gP_path c0
   have hpend : c.g.pending = some o := by
     have := congrArg GState.pending hf.g
-    rw [(ensureSecret_fields c.g).2.2.2.2.2.1, gP, (ensureSecret_fields c0.g).2.2.2.2.2.1, hs.pending] at this
-    exact this
+    rw [(ensureSecret_fields c.g).2.2.2.2.2.1] at this
+    rw [this]
+    show (gP c0).pending = _
+    rw [gP, (ensureSecret_fields c0.g).2.2.2.2.2.1, hs.pending]
   rw [deliverOnce_rec2 _ _ _ _ r hr hst,
-    step1_commit_own retry nx c o o b sw hf.hg (by rw [hwg]; exact outerOpens_parent c0 hb o hs.path) hk
+    step1_commit_own retry nx c o o b sw hf.hg (by rw [hwg, outerOpens_wc]; exact outerOpens_parent c0 hb o hs.path) hk
       (by rw [hs.path, hpath]) (by rw [hf.id]; exact hs.own) hpend]
   obtain ⟨k, hk'⟩ := hf.mgr
-  have hchild : syncRec (ensureSecret (mergeCommit c.maxPast (withSecret c).g o)) = childG c0 o := by
-    rw [hwg, hf.mp]; rfl
-  refine ⟨⟨hf.id, hf.ret, hf.mp, hf.hg, ?_, ?_⟩, ?_⟩
-  · exact hchild
-  · simp only [setRec, mgrCreate, withSecret_mgr, hk', hwg, gP_path, hpath]
-    have hlen : (c0.mgr.drop k ++ [({ epoch := epochOf c0.g.path, commit := o.idnum, ts := o.ts, saved := gP c0 } : Snap)]).length - (withSecret c).retention ≤ (c0.mgr.drop k).length := by
-      have : (withSecret c).retention = c0.retention := hf.ret
-      have := hb.ret
-      simp only [List.length_append, List.length_singleton]
-      omega
-    refine ⟨k + ((c0.mgr.drop k ++ [({ epoch := epochOf c0.g.path, commit := o.idnum, ts := o.ts, saved := gP c0 } : Snap)]).length - (withSecret c).retention), ?_⟩
-    rw [drop_snoc _ _ _ hlen, List.drop_drop]
-    rfl
+  have hchild : syncRec (ensureSecret (mergeCommit c.maxPast (withSecret c).g o)) = wc (childG c0 o) c.g.consumed := by
+    rw [hwg, hf.mp]; exact childOf_wc c0 o _
+  have hcons : (syncRec (ensureSecret (mergeCommit c.maxPast (withSecret c).g o))).consumed = c.g.consumed := by
+    rw [hchild]; rfl
+  refine ⟨⟨hf.id, hf.ret, hf.mp, hf.hg, ?_, ?_⟩, ?_, hcons⟩
+  · show syncRec _ = wc (childG c0 o) (syncRec _).consumed
+    rw [hcons]; exact hchild
+  · show ∃ k, (mgrCreate (withSecret c) _ o).mgr = _ ++ [snapOf c0 o (syncRec _).consumed]
+    rw [hcons]
+    simp only [mgrCreate, hwg]
+    have hm : (withSecret c).mgr = c0.mgr.drop k := hk'
+    rw [hm, hpath]
+    exact mgrCreate_parent c0 hb k _ _ hf.ret
   · have hep : epochOf (syncRec (ensureSecret (mergeCommit c.maxPast (withSecret c).g o))).path = epochOf c0.g.path + 1 := by
-      rw [hchild, (childG_facts c0 hb o hs.com).1, epochOf_snoc]
+      rw [hchild]
+      show epochOf (childG c0 o).path = _
+      rw [(childG_facts c0 hb o hs.com).1, epochOf_snoc]
     simp only [setRec, hep, rec2]
     rfl
 
@@ -963,7 +1097,7 @@ theorem child_worse_own (c0 : Cl) (hb : Base c0) (retry : Cl → Option (Cl × R
   have hb' : isBetter c (epochOf c0.g.path) o = false := by rw [isBetter_child c0 hb a o c hf ha.ts]; exact hw
   rw [deliverOnce_rec2 _ _ _ _ r hr hst, child_wrong c0 hb retry nx a o c hf ha hs.com]
   simp only [wrongEpochCommit, hb', Bool.false_eq_true, if_false, notBetterResult, hr, hst, returnOwnCommit]
-  have hsy : syncRec c.g = c.g := by rw [hf.g]; exact (childG_stable c0 hb a ha).2
+  have hsy : syncRec c.g = c.g := by rw [hf.g, syncRec_wc, (childG_stable c0 hb a ha).2]
   cases c
   simp only at hsy ⊢
   simp [hsy]
@@ -973,10 +1107,11 @@ theorem child_better_own (c0 : Cl) (hb : Base c0) (f nx : Nat) (a o : Ev) (c : C
     (hf : CForm c0 a c) (ha : Com c0 a) (hs : OwnSib c0 o) (hr : getRec c o.n = some (rec0 c0))
     (hw : klt (key o) (key a) = true) :
     CForm c0 o (deliverN (f + 1) nx c o).1 ∧
-    ∀ n, getRec (deliverN (f + 1) nx c o).1 n =
-      if n = o.n then some (rec2 c0) else (getRec c n).map (rbRec (epochOf c0.g.path)) := by
+    (∀ n, getRec (deliverN (f + 1) nx c o).1 n =
+      if n = o.n then some (rec2 c0) else (getRec c n).map (rbRec (epochOf c0.g.path))) ∧
+    (deliverN (f + 1) nx c o).1.g.consumed = c.g.consumed := by
   have hb' : isBetter c (epochOf c0.g.path) o = true := by rw [isBetter_child c0 hb a o c hf ha.ts]; exact hw
-  obtain ⟨c1, hrb, hp1, hrec1⟩ := rollback_child c0 hb a c hf
+  obtain ⟨c1, hrb, hp1, hcons1, hrec1⟩ := rollback_child c0 hb a c hf
   have hr1 : getRec c1 o.n = some (rec0 c0) := by rw [hrec1, hr]; simp [rbRec_rec0]
   obtain ⟨retry', hret⟩ := deliverN_once f nx c1 o
   have happ := apply_parent_own c0 hb retry' nx c1 o hp1 hs _ hr1 rfl
@@ -985,14 +1120,13 @@ theorem child_better_own (c0 : Cl) (hb : Base c0) (f nx : Nat) (a o : Ev) (c : C
     rw [deliverOnce_rec2 _ _ _ _ _ hr rfl, child_wrong c0 hb _ nx a o c hf ha hs.com]
     simp only [wrongEpochCommit, hb', if_true, hrb, hret]
   rw [heq]
-  refine ⟨happ.1, ?_⟩
+  refine ⟨happ.1, ?_, by rw [happ.2.2, hcons1]⟩
   intro n
   simp only [getRec] at hrec1 ⊢
-  rw [happ.2]
+  rw [happ.2.1]
   by_cases hn : n = o.n
   · subst hn; simp [alookup_ainsert_self]
   · rw [alookup_ainsert_ne _ _ _ _ hn, hrec1]; simp [hn]
-
 
 theorem fdeliver2_blocked {own : Key} {c : FState} {s : Key} (h : s ∈ c.blocked) : fdeliver2 own c s = c := by
   simp [fdeliver2, h]
@@ -1014,6 +1148,7 @@ structure Sibs2 (c0 : Cl) (o : Ev) (S : List Ev) : Prop where
   own : OwnSib c0 o
   sib : ∀ e ∈ S, Sib c0 e
   inj : ∀ e1 ∈ o :: S, ∀ e2 ∈ o :: S, (e1.n = e2.n ∨ key e1 = key e2) → e1 = e2
+  cinj : ∀ e1 ∈ S, ∀ e2 ∈ S, e1.cipher = e2.cipher → e1 = e2
   norec : ∀ e ∈ S, getRec c0 e.n = none
 
 theorem Sibs2.com {c0 : Cl} {o : Ev} {S : List Ev} (h : Sibs2 c0 o S) (e : Ev) (he : e ∈ o :: S) : Com c0 e := by
@@ -1022,6 +1157,7 @@ theorem Sibs2.com {c0 : Cl} {o : Ev} {S : List Ev} (h : Sibs2 c0 o S) (e : Ev) (
   · exact (h.sib e he').com
 
 structure Rel2 (c0 : Cl) (o : Ev) (S : List Ev) (c : Cl) (st : FState) : Prop where
+  cons : ConsOK c0 S c
   par : st.applied = none → PForm c0 c
   chi : ∀ k, st.applied = some k → ∃ a ∈ o :: S, key a = k ∧ CForm c0 a c ∧ getRec c a.n = some (rec2 c0)
   blk : ∀ e ∈ o :: S, key e ∈ st.blocked → ∃ r, getRec c e.n = some r ∧ BlockedRec c0 r
@@ -1029,7 +1165,8 @@ structure Rel2 (c0 : Cl) (o : Ev) (S : List Ev) (c : Cl) (st : FState) : Prop wh
   ownf : key o ∉ st.blocked → st.applied ≠ some (key o) → getRec c o.n = some (rec0 c0)
 
 theorem rel2_init (c0 : Cl) (hb : Base c0) (o : Ev) (S : List Ev) (hS : Sibs2 c0 o S) : Rel2 c0 o S c0 ⟨none, []⟩ where
-  par := fun _ => ⟨rfl, rfl, rfl, hb.hasGroup, rfl, ⟨0, by simp⟩⟩
+  cons := fun x hx => Or.inl hx
+  par := fun _ => pform_init c0 hb
   chi := fun k h => by cases h
   blk := fun e _ h => by cases h
   fresh := fun e he _ _ => hS.norec e he
@@ -1050,16 +1187,28 @@ theorem rel2_step (c0 : Cl) (hb : Base c0) (o : Ev) (S : List Ev) (hS : Sibs2 c0
   · cases hap : st.applied with
     | none =>
       obtain ⟨retry, hd⟩ := deliverN_once 3 nx c e
-      have happ : CForm c0 e (deliverOnce retry nx c e).1 ∧ (deliverOnce retry nx c e).1.recs = ainsert e.n (rec2 c0) c.recs := by
+      have happ : CForm c0 e (deliverOnce retry nx c e).1 ∧ (deliverOnce retry nx c e).1.recs = ainsert e.n (rec2 c0) c.recs ∧
+          ((deliverOnce retry nx c e).1.g.consumed = c.g.consumed ∨
+           (e ∈ S ∧ (deliverOnce retry nx c e).1.g.consumed = e.cipher :: c.g.consumed)) := by
         rcases List.mem_cons.mp he with rfl | heS
-        · exact apply_parent_own c0 hb retry nx c e (h.par hap) hS.own _ (h.ownf hbl (by rw [hap]; simp)) rfl
-        · exact apply_parent c0 hb retry nx c e (h.par hap) (hS.sib e heS) (h.fresh e heS hbl (by rw [hap]; simp))
-      obtain ⟨hcf, hrecs⟩ := happ
+        · obtain ⟨x1, x2, x3⟩ := apply_parent_own c0 hb retry nx c e (h.par hap) hS.own _ (h.ownf hbl (by rw [hap]; simp)) rfl
+          exact ⟨x1, x2, Or.inl x3⟩
+        · have hfr := h.fresh e heS hbl (by rw [hap]; simp)
+          obtain ⟨x1, x2, x3⟩ := apply_parent c0 hb retry nx c e (h.par hap) (hS.sib e heS) hfr
+            (consOK_fresh c0 S c hS.sib hS.cinj h.cons e heS hfr)
+          exact ⟨x1, x2, Or.inr ⟨heS, x3⟩⟩
+      obtain ⟨hcf, hrecs, hcons⟩ := happ
       rw [fdeliver2_none hbl hap, deliver, hd]
       have hother : ∀ e' ∈ o :: S, key e' ≠ key e → getRec (deliverOnce retry nx c e).1 e'.n = getRec c e'.n := by
         intro e' he' hk
         simp only [getRec, hrecs]; exact alookup_ainsert_ne _ _ _ _ (hnn e' he' hk)
-      refine ⟨(fun x => by cases x), ?_, ?_, ?_, ?_⟩
+      have hcn : ConsOK c0 S (deliverOnce retry nx c e).1 :=
+        consOK_step c0 S c _ h.cons (fun e' _ hn => by simp only [getRec, hrecs]; exact alookup_ainsert_ne_none _ _ _ _ hn)
+          (by
+            rcases hcons with x | ⟨heS, x⟩
+            · exact Or.inl x
+            · exact Or.inr ⟨e, heS, x, by simp only [getRec, hrecs, alookup_ainsert_self]; simp⟩)
+      refine ⟨hcn, (fun x => by cases x), ?_, ?_, ?_, ?_⟩
       · intro k hk
         cases hk
         exact ⟨e, he, rfl, hcf, by simp only [getRec, hrecs]; exact alookup_ainsert_self _ _ _⟩
@@ -1085,15 +1234,34 @@ theorem rel2_step (c0 : Cl) (hb : Base c0) (o : Ev) (S : List Ev) (hS : Sibs2 c0
         have hnap : st.applied ≠ some (key e) := by rw [hap]; intro x; exact hsame (Option.some.inj x)
         by_cases hlt : klt (key e) ka = true
         · -- better
-          have hbet : CForm c0 e (deliverN 3 nx c e).1 ∧ ∀ n, getRec (deliverN 3 nx c e).1 n =
-              if n = e.n then some (rec2 c0) else (getRec c n).map (rbRec (epochOf c0.g.path)) := by
+          have hbet : CForm c0 e (deliverN 3 nx c e).1 ∧ (∀ n, getRec (deliverN 3 nx c e).1 n =
+              if n = e.n then some (rec2 c0) else (getRec c n).map (rbRec (epochOf c0.g.path))) ∧
+              ((deliverN 3 nx c e).1.g.consumed = c.g.consumed ∨
+               (e ∈ S ∧ (deliverN 3 nx c e).1.g.consumed = e.cipher :: c.g.consumed)) := by
             rcases List.mem_cons.mp he with rfl | heS
-            · exact child_better_own c0 hb 2 nx a e c hcf hca hS.own (h.ownf hbl hnap) (by rw [hka]; exact hlt)
-            · exact child_better c0 hb 2 nx a e c hcf hca (hS.sib e heS) (h.fresh e heS hbl hnap) (by rw [hka]; exact hlt)
-          obtain ⟨hcf', hrec'⟩ := hbet
+            · obtain ⟨x1, x2, x3⟩ := child_better_own c0 hb 2 nx a e c hcf hca hS.own (h.ownf hbl hnap) (by rw [hka]; exact hlt)
+              exact ⟨x1, x2, Or.inl x3⟩
+            · have hfr := h.fresh e heS hbl hnap
+              obtain ⟨x1, x2, x3⟩ := child_better c0 hb 2 nx a e c hcf hca (hS.sib e heS) hfr
+                (consOK_fresh c0 S c hS.sib hS.cinj h.cons e heS hfr) (by rw [hka]; exact hlt)
+              exact ⟨x1, x2, Or.inr ⟨heS, x3⟩⟩
+          obtain ⟨hcf', hrec', hcons⟩ := hbet
           rw [fdeliver2_better hbl hap hsame hlt]
           show Rel2 c0 o S (deliverN 3 nx c e).1 _
-          refine ⟨(fun x => by cases x), ?_, ?_, ?_, ?_⟩
+          have hcn : ConsOK c0 S (deliverN 3 nx c e).1 :=
+            consOK_step c0 S c _ h.cons
+              (fun e' _ hn => by
+                rw [hrec']
+                by_cases z : e'.n = e.n
+                · simp [z]
+                · simp only [z, if_false]; cases hg : getRec c e'.n with
+                  | none => exact absurd hg hn
+                  | some r => simp)
+              (by
+                rcases hcons with x | ⟨heS, x⟩
+                · exact Or.inl x
+                · exact Or.inr ⟨e, heS, x, by rw [hrec']; simp⟩)
+          refine ⟨hcn, (fun x => by cases x), ?_, ?_, ?_, ?_⟩
           · intro k hk
             cases hk
             exact ⟨e, he, rfl, hcf', by rw [hrec']; simp⟩
@@ -1139,12 +1307,15 @@ theorem rel2_step (c0 : Cl) (hb : Base c0) (o : Ev) (S : List Ev) (hS : Sibs2 c0
               subst this
               have h1 := (hS.sib e heS).foreign
               rw [hS.own.own] at h1; cases h1
-            obtain ⟨hcf', hrecs⟩ := child_worse c0 hb retry nx a e c hcf hca (hS.sib e heS) (h.fresh e heS hbl hnap) hlt'
+            obtain ⟨hcf', hrecs, hgeq⟩ := child_worse c0 hb retry nx a e c hcf hca (hS.sib e heS) (h.fresh e heS hbl hnap) hlt'
             rw [fdeliver2_worse hbl hap hsame hlt hko, deliver, hd]
             have hother : ∀ e' ∈ o :: S, key e' ≠ key e → getRec (deliverOnce retry nx c e).1 e'.n = getRec c e'.n := by
               intro e' he' hk
               simp only [getRec, hrecs]; exact alookup_ainsert_ne _ _ _ _ (hnn e' he' hk)
-            refine ⟨(fun x => by rw [hap] at x; cases x), ?_, ?_, ?_, ?_⟩
+            have hcn : ConsOK c0 S (deliverOnce retry nx c e).1 :=
+              consOK_step c0 S c _ h.cons (fun e' _ hn => by simp only [getRec, hrecs]; exact alookup_ainsert_ne_none _ _ _ _ hn)
+                (Or.inl (by rw [hgeq]))
+            refine ⟨hcn, (fun x => by rw [hap] at x; cases x), ?_, ?_, ?_, ?_⟩
             · intro k hk
               rw [hap] at hk; cases hk
               exact ⟨a, haT, hka, hcf', by rw [hother a haT (by rw [hka]; exact hsame)]; exact hra⟩
